@@ -30,8 +30,9 @@ type LoadedLemma struct {
 }
 
 type frameInfo struct {
-	comps map[string]string
-	all   bool
+	comps     map[string]string
+	all       bool
+	typeLines []string // datatype declarations the component sorts refer to
 }
 
 type implInfo struct {
@@ -400,6 +401,7 @@ func (w *World) frameOf(fn *ssa.Function, c *LoadedContract) *frameInfo {
 		}
 		fi.comps[comp] = ex.compSort[comp]
 	}
+	fi.typeLines = append([]string(nil), ex.ctx.typeLines...)
 	for _, n := range ex.notes {
 		if strings.Contains(n, "unbounded frame") {
 			fi.all = true
